@@ -7,7 +7,7 @@
    fetch; address-index walk). The harness checks on the real code that no reader answers after a failed read. *)
 From Coq Require Import List NArith.
 Import ListNotations.
-Require Import YF.Codec YF.ReadAt YF.CI YF.C13_Trunc.
+Require Import YF.Codec YF.ReadAt YF.CI YF.C13_Trunc YF.C04_Model YF.C05_Model YF.C06_LinkedLog YF.C06_Store YF.C13_Models YF.C13_SigExists.
 
 (* For EVERY reader program, EVERY file and EVERY truncation offset: the truncated copy yields the result of the
    complete file, or a read error — never "not found", an empty result or a different value *)
@@ -37,14 +37,55 @@ Theorem C13_compact_index_program_is_the_model : forall hash bucket_of vs hdrlen
   | Found v => Answer (Some v) | NotFound => Answer None | ReadErr => ReadError end.
 Proof. exact ci_lookup_agrees. Qed.
 
+(* The same statement on the byte-level READER MODELS that the correspondence checks of C04, C05 and C06 run
+   against the Go readers on every check (so the tie to the code is theirs):
+   compact index reader (Bucket.Lookup / loadEntry / unmarshalEntry with the uint8 stride) *)
+Theorem C13_compact_index_reader_model : forall hash bucket_of evs hlen nb (file : list N) n k,
+  lookup_at hash bucket_of evs hlen nb (firstn n file) k = lookup_at hash bucket_of evs hlen nb file k \/
+  lookup_at hash bucket_of evs hlen nb (firstn n file) k = ReadErr.
+Proof. exact c04_lookup_truncated. Qed.
+
+(* signature-existence reader, both formats, opened over the truncated file: NewReader + Has *)
+Theorem C13_sig_exists_reader_model : forall hash ver (f : list N) (n : nat) s,
+  file_has hash ver (firstn n f) s = file_has hash ver f s \/ file_has hash ver (firstn n f) s = Err.
+Proof. exact sigexists_truncated. Qed.
+Theorem C13_sig_exists_never_absent : forall hash ver (f : list N) (n : nat) s,
+  file_has hash ver f s = Ok true -> file_has hash ver (firstn n f) s <> Ok false.
+Proof. exact sigexists_truncated_never_absent. Qed.
+
+(* linked log of the address index: ReadWithSize, and the walk along the previous pointers (GsfaReader.Get):
+   the truncated log yields the complete log's list or a failure, never a shorter list *)
+Theorem C13_linked_log_record_model : forall decompress (file : list N) n off size r,
+  read_with_size decompress (firstn n file) off size = Some r -> read_with_size decompress file off size = Some r.
+Proof. exact c06_read_with_size_truncated. Qed.
+Theorem C13_linked_log_walk_model : forall decompress fuel (file : list N) n p es,
+  bwalk decompress fuel (firstn n file) p = Some es -> bwalk decompress fuel file p = Some es.
+Proof. exact c06_walk_truncated. Qed.
+
 (* non-vacuity: a two-read program on a 4-byte file, cut after 3 bytes *)
 Example C13_nonvacuous :
   let p := Read 0 2 (fun a => Read 2 2 (fun b => Ret (a ++ b))) in
   run (read_at [1; 2; 3; 4]%N) p = Answer [1; 2; 3; 4]%N /\ run (read_at (firstn 3 [1; 2; 3; 4]%N)) p = ReadError.
 Proof. split; vm_compute; reflexivity. Qed.
 
+(* non-vacuity on the signature-existence model: a sealed legacy file with three signatures; cut by one byte, the
+   signature whose bucket entry lies at the end fails, the others still answer; cut inside the header, all fail *)
+Example C13_sig_exists_nonvacuous :
+  let h := fun s : list N => (nth 2 s 0 * 1000003 + 7)%N in
+  let sg := fun a : N => [1; 2; a]%N ++ repeat 5%N 61 in
+  let f := match seal V1 [] (puts h [sg 9; sg 4; sg 200]%N) with Ok f => f | _ => [] end in
+  length f = 74 /\ file_has h V1 f (sg 200%N) = Ok true /\ file_has h V1 f (sg 5%N) = Ok false /\
+  file_has h V1 (firstn 73 f) (sg 200%N) = Err /\ file_has h V1 (firstn 73 f) (sg 9%N) = Ok true /\
+  file_has h V1 (firstn 20 f) (sg 4%N) = Err.
+Proof. vm_compute. repeat split; reflexivity. Qed.
+
 Print Assumptions C13_truncated_same_or_read_error.
 Print Assumptions C13_truncated_never_other_answer.
 Print Assumptions C13_monotone_in_the_read_oracle.
 Print Assumptions C13_failed_read_means_read_error.
 Print Assumptions C13_compact_index_program_is_the_model.
+Print Assumptions C13_compact_index_reader_model.
+Print Assumptions C13_sig_exists_reader_model.
+Print Assumptions C13_sig_exists_never_absent.
+Print Assumptions C13_linked_log_record_model.
+Print Assumptions C13_linked_log_walk_model.
